@@ -78,6 +78,8 @@ def key_of(check, ev, ctx):
         return "%s|lists" % check
     if ev.get("ev") in ("RemoteMsg", "RemoteQueryReturn"):
         return "%s|remote:%s:%s" % (check, ev.get("helper", "query"), ev.get("handle", ""))
+    if ev.get("ev") == "Schemas":
+        return "%s|schemas:%s" % (check, "contract" if ev.get("part") == "contract" else "part")
     if ev.get("ev") == "Encode":
         return "%s|encode|%s" % (check, ev.get("kind"))
     if ctx.get("ev") == "Deliver":
